@@ -81,6 +81,7 @@ pub fn exec(ex: &Exec, st: &mut Stats) -> Out {
                 }
             }
             Ev::TWrite { ok: false, .. } | Ev::TFlush { ok: false } => st.bump("fired:transport_error"),
+            Ev::TWrite { data, ok: true } if data.len() == ex.n => st.bump("reach:response_exactly_fills_buffer"),
             Ev::Exit { ok: false, .. } => st.bump("fired:handler_error"),
             Ev::WFail => st.bump("fired:sink_full"),
             Ev::Err(_) => st.bump("reach:error_reported"),
